@@ -300,6 +300,14 @@ class Interp:
             env_c, args_c, cl_c = copy.deepcopy((env or {}, args or {}, closure_locals or {}), memo)
             for k, v in env_c.items():
                 run.heap[k] = v
+            if fi.cls is not None:
+                for k in env_c:
+                    if k.startswith("self.") and "." not in k[5:] and "[" not in k:
+                        pm = self.repo.find_method(fi.cls.qual, k[5:])
+                        if pm is not None and ("property" in pm.decorators or any(d.endswith((".setter", ".getter")) for d in pm.decorators)):
+                            # the rule's model state names a stored field; in this tree it is computed from other fields — presetting it would be ignored
+                            raise AnalysisError(f"{fi.cls.name}.{k[5:]} is a computed property in this tree: the model state of the rule (which presets it as a stored "
+                                                f"field) does not apply; the rule has to be re-confirmed against the new representation")
             cf = closure_frame
             if closure_locals is not None and fi.parent is not None:
                 cf = Frame(fi.parent, None, 0)
